@@ -1,6 +1,7 @@
 import ACModel.Props.C01
 import ACModel.Proofs.Rows
 import ACModel.Props.C04
+import ACModel.Proofs.Groups
 /-
   C02 — Carved features respect max_n_mod, min_freq_mod and dev robustness
 
@@ -344,10 +345,11 @@ theorem stage2_rows (cfg : Cfg) (hns : cfg.sortGroupsByLabel = false) (train : T
     frequency theorems above, read through the labels. -/
 theorem transform_label_is_groupIdx (f : String) (g : GL) (hwf : g.WF) (labels : List Val) (strNan strDefault : Option String)
     (cin cout : Col) (h : Disc.transformQualCol f g (Disc.tableOf g labels) strNan strDefault cin = .ok cout)
-    (hlen : labels.length = g.lst.length) (hnd : (g.lst.map g.get).flatten.Nodup)
+    (hlen : labels.length = g.lst.length)
     (k : Nat) (v : Val) (hk : cin[k]? = some (some v)) (hv : v ∈ (g.lst.map g.get).flatten) :
     ∃ hi : groupIdx (g.lst.map g.get) v < labels.length,
       cout[k]? = some (some (labels[groupIdx (g.lst.map g.get) v]'hi)) := by
+  have hnd := GroupLemmas.wf_groups_nodup g hwf
   have hlt := groupIdx_lt (g.lst.map g.get) v hv
   have hi : groupIdx (g.lst.map g.get) v < g.lst.length := by simpa using hlt
   have hmem := (groupIdx_eq_iff (g.lst.map g.get) _ hlt v hnd).1 rfl
